@@ -102,6 +102,10 @@ def _abstract_class(cls, vocab):
             d = {'k': 'fac', 'v': vocab.abstract(f.default_factory())}
         else:
             d = {'k': 'nodef', 'v': {'k': 'none'}}
+            if not f.init:
+                # a field pane never touches and that has no default: what the attribute holds is the class'
+                # own business (outside the class family the specification describes)
+                raise vocab.OutOfVocab('init=False field without default')
         fs.append({'n': vocab.tok(f.name), 't': _abstract_type(f.type, vocab), 'd': d, 'kw': 'T' if f.kw_only else 'F',
                    'ins': [vocab.tok(n) for n in f.in_names], 'out': vocab.tok(f.out_name), 'ex': 'T' if f.exclude else 'F',
                    'init': 'T' if f.init else 'F'})
